@@ -26,6 +26,12 @@ def family_texts(cls, t):
     fams.append(("suffixes", [t] + [t + x for x in sfx]))
     seps = [i for i, c in enumerate(t) if c in ".-_+~:"][:4]
     fams.append(("separators", list(dict.fromkeys([t] + [t[:i] + c + t[i + 1:] for i in seps for c in ".-_+~:"]))))
+    # a letter run glued to a number against a longer run with the same beginning (rpm and alpm compare maximal runs)
+    fams.append(("letter-runs", [t + "b1", t + "beta1", t + "ba1", t + ".b1", t + "b.1", t + "b", t + "B1", t + "b01"]))
+    runs = list(re.finditer(r"[A-Za-z]+", t))[:2]
+    if runs:
+        fams.append(("letter-runs-in-place", list(dict.fromkeys([t] + [t[:m.start()] + w + t[m.end():] for m in runs
+                                                                     for w in (m.group()[:1], m.group() + "a", m.group() + m.group(), m.group()[:-1] or "x")]))))
     fams.append(("case", list(dict.fromkeys([t, t.upper(), t.lower(), t.capitalize(), t.swapcase()]))))
     fams.append(("decorations", [t, t + "-", t + "-0", "0:" + t, "00:" + t, t + "+", t + ".", t + "~", t + "-0-0", t + "-1-", "1:" + t, ":" + t, t + "_", "+" + t]))
     return fams
